@@ -20,6 +20,11 @@ NA = {
 }
 
 CLAIMS = {
+    'C09': dict(
+        category='exploration', technique='deterministic simulation: seeded object specs, copy, then a seeded history of in-place mutations on one side with the other side observed after every step; identity-based aliasing walker; operand snapshots for operators',
+        engine='history-machine',
+        text='Entities (with brushes, outputs, fixups), brushes, faces (displacements power 1-4 with multiblend, allowed verts, point data), outputs, nested visgroups, Keyvalues trees and EntityFixup objects are built from seeded specs and copied within a map or across maps (and through copy.copy/deepcopy/pickle/+/+=/extend where applicable). Completeness: observation and export text of the copy equal the original apart from IDs. Independence: a generic walker over slots/attrs/containers reports any mutable object reachable from both sides, and a seeded list of in-place mutations (translate, localise, key/fixup/output/vertex edits, in-place arithmetic on every reachable vector) on one side must leave the other side\'s observation unchanged after every step. Operators: operands of Keyvalues + and Vec/Angle/Matrix binary operators (all operand type pairs) are snapshotted before and after.',
+        note='Objects are sampled; IDs (incl. node IDs) excluded from completeness; owning VMF shared by design.', ref='5/C09'),
     'C08': dict(
         category='exploration', technique='deterministic simulation: seeded operation histories with a scheduled heap (harness-owned references, gc disabled, drop/collect as steps deciding when finalizers release IDs), invariant after every step',
         engine='history-machine+E3-heap',
